@@ -207,6 +207,9 @@ macro_rules! harness {
             pub fn body<S: $crate::hlib::Src>($s: &mut S) $body
             #[cfg(kani)]
             #[kani::proof]
+            // konst_kernel's panic helper formats a 256-byte message in loops before panicking: stubbed in EVERY harness, so
+            // that a change which makes a string function panic is reported as that panic, not as an unwinding failure
+            #[kani::stub(konst_kernel::string::non_char_boundary_panic, $crate::hlib::stub_non_char_boundary_panic)]
             $(#[$attr])*
             pub fn k() {
                 body(&mut $crate::hlib::KaniSrc)
